@@ -29,11 +29,13 @@ class State:
     def __init__(self):
         self.vars: dict[str, V] = {}
         self.pc: list = []
+        self.unbound: dict[str, object] = {}  # name -> condition under which the local is NOT bound
 
     def copy(self):
         s = State()
         s.vars = dict(self.vars)
         s.pc = list(self.pc)
+        s.unbound = dict(self.unbound)
         return s
 
 
@@ -110,14 +112,37 @@ class Executor:
         self.ret_t: T | None = None
         self.nested = {n.name: n for n in fn_node.body if isinstance(n, ast.FunctionDef)}
         self.input_syms: dict[str, V] = {}
-        self.generics = tuple(spec.generics)
+        tp = [t.name for t in getattr(fn_node, "type_params", [])] if fn_node is not None else []
+        if cls_name and module_ast is not None:
+            for n in ast.walk(module_ast):
+                if isinstance(n, ast.ClassDef) and n.name == cls_name:
+                    tp += [t.name for t in getattr(n, "type_params", [])]
+        self.generics = tuple(spec.generics) + tuple(x for x in tp if x not in spec.generics)
         self.n_ret = 0
         self.lemma_hyps: list = []
 
     # ------------------------------------------------------------------ setup
     def ptype(self, s: str) -> T:
-        if s.startswith("rec<") or s in self.reg.__dict__.get("records", {}):
-            return self.reg.records[s] if s in self.reg.records else parse_type(s, self.generics)
+        s = s.strip()
+        if s.startswith("fun:"):
+            fd = self.reg.funs[s[4:]]
+            return TFun([self.ptype(a) for a in fd["args"]], self.ptype(fd["ret"]), s[4:], fd["pure"])
+        if s in ("opaque", "rng"):
+            return TU(s)
+        if s.startswith("funs:"):  # sequence of callbacks of one kind: tokens of an uninterpreted sort
+            return TList(TU("cb_" + s[5:]))
+        m = __import__("re").match(r"^(\w+)\[(.*)\]$", s)
+        if m and m.group(1) in self.reg.records:
+            fields = {}
+            for k, v in self.reg.records[m.group(1)].items():
+                fields[k] = self.ptype(v.replace("$T", m.group(2)))
+            return TRec(m.group(1), fields)
+        if s in self.reg.records:
+            return TRec(s, {k: self.ptype(v) for k, v in self.reg.records[s].items()})
+        if s.startswith("opt[") and s.endswith("]"):
+            return TOpt(self.ptype(s[4:-1]))
+        if s.startswith("list[") and s.endswith("]"):
+            return TList(self.ptype(s[5:-1]))
         return parse_type(s, self.generics)
 
     def ann_type(self, a) -> T:
@@ -439,20 +464,50 @@ class Executor:
         hint = None
         if len(s.targets) == 1 and isinstance(s.targets[0], ast.Name):
             nm = s.targets[0].id
+            if self.is_skipped(nm):
+                self.bind_skipped(st, nm)
+                return [(st, "normal", None)]
+            if isinstance(s.value, ast.Call) and isinstance(s.value.func, ast.Name) and s.value.func.id in self.reg.classes:
+                from .builtins import construct
+                construct(self, ev, s.value, nm)
+                return [(st, "normal", None)]
+        if len(s.targets) == 1 and isinstance(s.targets[0], ast.Name):
+            nm = s.targets[0].id
             if nm in self.spec.types or nm in self.variant:
                 hint = self.declared_type(nm)
             elif nm in st.vars and st.vars[nm].z is not None:
                 hint = None
         if (isinstance(s.value, ast.Tuple) and len(s.targets) == 1 and isinstance(s.targets[0], ast.Tuple)
                 and len(s.value.elts) == len(s.targets[0].elts)):
-            vals = [ev.expr(e) for e in s.value.elts]  # all right-hand sides first (swap idiom)
+            vals = []
+            for t, e in zip(s.targets[0].elts, s.value.elts):  # all right-hand sides first (swap idiom)
+                if isinstance(t, ast.Name) and self.is_skipped(t.id):
+                    vals.append(None)
+                elif isinstance(t, ast.Name) and (t.id in self.spec.types or t.id in self.variant):
+                    vals.append(self.expr_typed(ev, e, self.declared_type(t.id)))
+                else:
+                    vals.append(ev.expr(e))
             for t, v in zip(s.targets[0].elts, vals):
-                self.assign(st, t, v, ev)
+                if v is None:
+                    self.bind_skipped(st, t.id)
+                else:
+                    self.assign(st, t, v, ev)
             return [(st, "normal", None)]
         v = self.expr_typed(ev, s.value, hint)
         for t in s.targets:
             self.assign(st, t, v, ev)
         return [(st, "normal", None)]
+
+    def is_skipped(self, nm):
+        decl = self.variant.get(nm, self.spec.types.get(nm))
+        return decl is not None and (decl.startswith("fun:") or decl in ("opaque", "rng"))
+
+    def bind_skipped(self, st, nm):
+        """callables / opaque helpers (Random instances, schedules, tabu memory): the right-hand side is not
+        interpreted, the variable stands for an arbitrary value of its declared kind"""
+        t = self.ptype(self.variant.get(nm, self.spec.types.get(nm)))
+        st.vars[nm] = V(t, None) if isinstance(t, TFun) else self.new_sym(t, nm, st)
+        st.unbound.pop(nm, None)
 
     def s_AugAssign(self, s, st):
         ev = Eval(self, st)
@@ -471,6 +526,9 @@ class Executor:
             if nm in self.spec.types or nm in self.variant:
                 v = coerce_to(v, self.declared_type(nm))
             elif nm in st.vars and st.vars[nm].z is not None and st.vars[nm].t != v.t:
+                if isinstance(v.t, TOpt) and v.t.t == st.vars[nm].t:
+                    self.side_obligation(st, "none-deref", z3.Not(opt_is_none(v)), target, [])
+                    v = opt_val(v)
                 try:
                     v = coerce_to(v, st.vars[nm].t)
                 except Unsupported:
@@ -483,6 +541,7 @@ class Executor:
             if isinstance(v.t, TObj):
                 raise Unsupported("object alias")
             st.vars[nm] = v
+            st.unbound.pop(nm, None)
             return
         if isinstance(target, ast.Attribute) and isinstance(target.value, ast.Name):
             key = f"{target.value.id}.{target.attr}"
@@ -552,6 +611,8 @@ class Executor:
 
     def merge(self, c, a: State, b: State, base_len):
         m = State()
+        for k in set(a.unbound) | set(b.unbound):
+            m.unbound[k] = z3.If(c, a.unbound.get(k, z3.BoolVal(False)), b.unbound.get(k, z3.BoolVal(False)))
         if a.pc[:base_len] != b.pc[:base_len] and any(not x.eq(y) for x, y in zip(a.pc[:base_len], b.pc[:base_len])):
             return None
         m.pc = list(a.pc[:base_len])
@@ -787,6 +848,8 @@ class Executor:
         if isinstance(container.t, TTuple):
             return z3.Or(*[tuple_get(container, i).z == coerce_to(item, container.t.items[i]).z
                            for i in range(len(container.t.items))])
+        if isinstance(container.t, TU) and container.t.uname == "opaque":
+            return self.new_sym(BOOL, "opq_in", ev.st).z
         raise Unsupported(f"'in' on {container.t}")
 
     def list_repeat(self, ev, lst: V, n: V, node):
